@@ -1,3 +1,4 @@
+#define HV_EIGEN_ASSERT_THROWS
 // C06 numeric harness: every operation / Jacobian / Hessian of a Bundle vs the same operation on its parts as
 // addressed by part<i>() (exact equality expected: same arithmetic), for a pool of compositions incl. nesting,
 // repetition and Eigen vectors; Eigen vectors (static/dynamic) and scalars as additive groups.
@@ -171,7 +172,9 @@ void run_rn(const std::string & name, Rng & rng, int n, int dim)
   }
 }
 
-int main()
+static int hv_main();
+int main() { return hv::guard(hv_main); }
+static int hv_main()
 {
   Report rep;
   rep.property = "C06";
